@@ -13,6 +13,8 @@ var (
 	zzPaths []string
 	zzFlags []int
 	zzErr   = errors.New("zz: open refused")
+	// zzMissing: the data file does not exist yet (an open without O_CREATE reports ErrNotExist).
+	zzMissing bool
 )
 
 //vrt:replace os.MkdirAll github.com/cenkalti/rain/v2/internal/storage/filestorage.zzMkdirAll
@@ -25,6 +27,9 @@ func zzMkdirAll(path string, perm os.FileMode) error {
 func zzOpenFile(name string, flag int, perm os.FileMode) (*os.File, error) {
 	zzPaths = append(zzPaths, name)
 	zzFlags = append(zzFlags, flag)
+	if zzMissing && flag&os.O_CREATE == 0 {
+		return nil, os.ErrNotExist // the file is not there yet: Open retries on its create path
+	}
 	return nil, zzErr
 }
 
@@ -102,12 +107,23 @@ func ZZPathsConfined2() { zzPathsConfined(2, 2) }
 // ZZPathsConfined3: up to 3 bytes.
 func ZZPathsConfined3() { zzPathsConfined(3, 3) }
 
-// ZZOpenSync: every data file is opened with O_SYNC (a returned write is durable).
+// ZZOpenSync: every data file is opened with O_SYNC (a returned write is durable), whether the
+// file already exists or is created by this open (the file's existence is symbolic).
+//
+//vrt:cover ZZOpenSync create path taken
+//vrt:cover ZZOpenSync existing-file path taken
 func ZZOpenSync() {
 	s := &FileStorage{dest: zzDest, perm: 0o750}
 	zzFlags = nil
+	zzMissing = vrt.Bool("file missing")
 	_, _, _ = s.Open("a/b", 10)
 	vrt.Assert(len(zzFlags) >= 1, "OpenFile not reached")
+	if zzMissing {
+		vrt.Assert(len(zzFlags) == 2 && zzFlags[1]&os.O_CREATE != 0, "missing file not created")
+		vrt.Cover(true, "create path taken")
+	} else {
+		vrt.Cover(true, "existing-file path taken")
+	}
 	for _, fl := range zzFlags {
 		vrt.Assert(fl&os.O_SYNC == os.O_SYNC, "data file opened without O_SYNC")
 		vrt.Assert(fl&os.O_RDWR == os.O_RDWR, "data file not opened read-write")
